@@ -27,6 +27,7 @@ CONSTANTS
   Probs = {%(probs)s}
   Pads = {0}
   Padfs = {0}
+  Showdups = {%(showdups)s}
 %(check)s
 CHECK_DEADLOCK FALSE
 """
@@ -34,9 +35,9 @@ INVS = "Inv_Covered Inv_KeepsCovered Inv_NoTwin Inv_StaleGone Inv_Foreign Inv_Id
 ALLP = '"P1", "P2", "P3", "P4"'
 
 
-def cfg(spec, runs, seeds, budgets, shifts, probs, check, strips="FALSE"):
+def cfg(spec, runs, seeds, budgets, shifts, probs, check, strips="FALSE", showdups="FALSE"):
     return MC_CFG % dict(spec=spec, runs=runs, seeds=seeds, budgets=budgets, shifts=shifts, probs=probs,
-                         check=check, strips=strips)
+                         check=check, strips=strips, showdups=showdups)
 
 
 def sig_of(v):
@@ -105,11 +106,13 @@ def run(ctx, cases_override=None):
                 ("micro", cfg("Spec", 2, 1, "0, 1, 2, 3", "0, 1", ALLP, "VIEW view\nINVARIANTS " + INVS)),
                 ("macro3", cfg("MacroSpec", 3, 0, "0, 1, 2, 3", "0", ALLP, "VIEW view\nPROPERTIES Prop_C17")),
                 ("macro2", cfg("MacroSpec", 2, 1, "0, 1, 2, 3", "0, 1", ALLP, "VIEW view\nPROPERTIES Prop_C17")),
+                ("micro-showdup", cfg("Spec", 2, 1, "0, 1, 2", "0, 1", '"P3", "P5", "P6"', "VIEW view\nINVARIANTS " + INVS, showdups="TRUE")),
             ]
         else:
             plan = [
                 ("micro", cfg("Spec", 2, 1, "0, 1, 2", "0", '"P1", "P2", "P4"', "VIEW view\nINVARIANTS " + INVS)),
                 ("macro2", cfg("MacroSpec", 2, 1, "0, 1, 2", "0", ALLP, "VIEW view\nPROPERTIES Prop_C17")),
+                ("micro-showdup", cfg("Spec", 2, 0, "0, 1, 2", "0", '"P3", "P5", "P6"', "VIEW view\nINVARIANTS " + INVS, showdups="TRUE")),
             ]
         for name, text in plan:
             m = ctx.tlc("CommentSync", "c17_%s.cfg" % name, files={"c17_%s.cfg" % name: text}, workers=nw,
